@@ -10,7 +10,7 @@ E3 configuration explorer.  Four kinds of cells, all enumerated completely insid
                vector, list, callable} x square-root factor kinds {symmetric, upper-triangular} x point alphabet
                {0, mean, basis, generic points}.  All forms of a cell denote one and the same N(mean, Sigma); each
                is compared with the explicit -(k/2)log 2pi - 1/2 logdet - 1/2 r^T Sigma^-1 r, hence pairwise.
-               Two further facets: ``scale`` - the same cells with the target covariance multiplied by 2^-30 and 2^20
+               Two further facets: ``scale`` - the same cells with the target covariance multiplied by 2^-30 and 2^30
                (every datum is the correspondingly scaled one, the points are the same in the coordinates
                standardised by the scale; reference = dense slogdet/solve on the scaled matrix; a non-finite logpdf
                is a verdict of its own, ``logpdf-finite``); ``int`` target - integer-valued data of every
@@ -50,7 +50,7 @@ BOUND = {
     "quick": "one value catalogue (seed mod 3). Gaussian: 4 targets x 4 parameterisations x dims {1,2,3,75,76} x "
              "<=5 data shapes (3 sparse formats) x {dense,sparse path} x <=4 passing forms x 5 mean forms x <=2 "
              "factor kinds; points = 0, mean, basis (complete for dim<=3, 4 vectors for dim>=75), 2 generic. "
-             "Scale facet: covariance x {2^-30, 2^20} for all 4 targets x 4 parameterisations at dims {1,2,76}, "
+             "Scale facet: covariance x {2^-30, 2^30} for all 4 targets x 4 parameterisations at dims {1,2,76}, "
              "all data shapes / paths / passing forms / factor kinds, mean forms {0, vector}, points standardised "
              "by the scale, no quadrature. Integer facet: 4 parameterisations x dims {1,2} x 6 data shapes "
              "(scalar, vector, diagonal, dense symmetric / triangular, sparse csr diagonal / full) x {float64, "
@@ -68,7 +68,7 @@ BOUND = {
 }
 ASSUMPTIONS = [
     "values outside the dyadic catalogues (3 catalogues) and dimensions outside the listed ones are not covered",
-    "overall scales other than 2^-30, 1, 2^20 are not covered; the scale facet is applied to the Gaussian covariance "
+    "overall scales other than 2^-30, 1, 2^30 are not covered; the scale facet is applied to the Gaussian covariance "
     "only (not to the iid families / MRFs); representations other than float64, int64 and python int/float (e.g. "
     "float32, int32, bool) are not covered; integer-valued parameters are small integers (|v| <= 8)",
     "multi-dimensional normalisation is decided by the reference formula only; quadrature is used for dim 1",
@@ -182,7 +182,7 @@ G_SHAPES = {   # target -> [(shape, sparse format)]
 G_DIMS = [1, 2, 3, 75, 76]
 G_DIMS_THOROUGH = [1, 2, 3, 4, 5, 74, 75, 76, 77]
 # scale facet: Sigma -> 2^e Sigma (power of two: the scaled data are exact images of the unscaled ones)
-G_SCALES = [-30, 20]
+G_SCALES = [-30, 30]
 G_SCALE_DIMS = [1, 2, 76]
 G_SCALE_DIMS_THOROUGH = [1, 2, 3, 4, 5, 75, 76]
 # representation facet: integer-valued data of every parameterisation given as float64 / integer dtype / python ints
@@ -341,7 +341,7 @@ def _gauss_data(target, shape, fmt, param, factor, dim, k, e=0):
 
 # ---- integer-valued data (representation facet) -------------------------------------------------------------
 def _int_vec(dim, k):
-    return np.array([1 + ((2 * i + k) % 4) for i in range(dim)], dtype=np.int64)            # entries 1..4
+    return np.array([2 + ((3 * i + k) % 4) for i in range(dim)], dtype=np.int64)            # entries 2..5 (1 would hide x -> 1/x, x^2, log x mistakes)
 
 
 def _int_mean(dim, k):
